@@ -134,6 +134,9 @@ func genCall(t *rapid.T, c *Case, maxBody int) Call {
 		call.BodyHead = rapid.SampledFrom([]string{"", "", "", "", "bom", "bom16", "gzip", "zip"}).Draw(t, "bodyhead")
 	}
 	call.ReaderErr = rapid.IntRange(0, 7).Draw(t, "readererr") == 0
+	for k, n := 0, rapid.SampledFrom([]int{0, 0, 1, 1, 2}).Draw(t, "op-produces"); k < n; k++ {
+		call.OpProduces = append(call.OpProduces, rapid.SampledFrom(append(append([]string{}, registrable...), "application/vnd.acme.v2+json", "image/png")).Draw(t, "op-produces-type"))
+	}
 	if rapid.IntRange(0, 5).Draw(t, "default-media-type-changed-before-the-call") == 0 {
 		if rapid.Bool().Draw(t, "new-default-registered") {
 			call.NewDefaultMT = rapid.SampledFrom(registrable).Draw(t, "new-defmt")
@@ -177,6 +180,7 @@ func genRuntime(t *rapid.T) Case {
 	}
 	c.RtClient = rapid.SampledFrom([]string{"transport", "transport", "client"}).Draw(t, "rtclient")
 	c.InPlace = rapid.IntRange(0, 2).Draw(t, "consumers-registered-in-place") == 0
+	c.Again = rapid.IntRange(0, 2).Draw(t, "operation-values-submitted-to-a-second-runtime") == 0
 	c.Debug = rapid.IntRange(0, 3).Draw(t, "debug") == 0
 	c.RtCtx = rapid.SampledFrom([]string{"live", "live", "live", "nil", "cancelled", "expired", "soon", "soon"}).Draw(t, "rtctx")
 	return c
@@ -243,6 +247,9 @@ func Classify(c Case) (bool, []string) {
 	if c.InPlace {
 		lab["consumers registered in place on the map New returned"] = true
 	}
+	if c.Again && !c.Concurrent {
+		lab["operation values submitted again through a second Runtime with its own client"] = true
+	}
 	if !c.Concurrent {
 		for i := range c.Calls {
 			if c.Calls[i].NewDefaultMT != "" && i > 0 {
@@ -260,6 +267,9 @@ func Classify(c Case) (bool, []string) {
 	for i := range c.Calls {
 		call := &c.Calls[i]
 		lab["ct "+call.CTClass] = true
+		if len(call.OpProduces) == 1 && !call.HasCT {
+			lab["response without Content-Type to an operation that names exactly one produces type"] = true
+		}
 		if call.HasCT && !reg[call.CT] {
 			nt = true
 		}
